@@ -76,6 +76,7 @@ def task(ctx):
     outs = verify.bind_and_run(ex, fn, st0, {"self": me, "inputs": flag})
     x, y = ctx.fresh_name("px"), ctx.fresh_name("py")
     for i, o in enumerate(outs):
+        i = o.st.pathid()
         if o.kind != "return":
             ctx.oblige(f"{QUAL}/post#{i}:never-raises({o.exc})", o.st.pc, z3.BoolVal(False), "post")
             continue
